@@ -18,6 +18,7 @@ func init() {
 		}
 		us = append(us, FaultGrid(),
 			Search{Sc: VSCRelay{Variant: "late", Epoch: 1, Delay: 1, Two: true}, Depth: 4 + d},
+			Search{Sc: VSCRelay{Variant: "expiry", Epoch: 1, Delay: 1}, Depth: 5 + d},
 			Search{Sc: Slash{Variant: "full"}, Depth: 3 + d},
 			Search{Sc: Stop{Variant: "base"}, Depth: 4 + d},
 			Search{Sc: Rewards{Fraction: "0.75", Period: 2}, Depth: 4 + d},
